@@ -21,6 +21,20 @@ HISTORY = {
     'C14-2': 'missed at first; C14 benchmark cases got HashingInfeasibleExperimenter wrapping in the fresh-process variant',
     'C16-1': 'first run ended INCONCLUSIVE (the harness could not build a valid conditional space); refusing a valid definition is now a violation',
     'C18-2': 'would have been missed (fresh warper per array); C18 got the reused-warper monitor before this seed was evaluated',
+    'C02-4': 'a concurrency change (id lookup moved out of the study lock): not visible to the sequential C02 check, caught by C04',
+    'C10-3': 'a concurrency change (CompleteTrial reads before taking the lock): not visible to the sequential C10 check, caught by C04 as a lost update',
+    'C03-3': 'missed at first (no INTEGER bounds beyond 2^24); C03 got hostile parameter shapes for the continuifying designers',
+    'C03-4': 'missed at first (no extreme log-scaled range for CMA-ES); C03 got extreme REVERSE_LOG / LOG ranges in CMA-ES spaces',
+    'C05-3': 'missed by C05 at first, caught by C07 (the C05 reference is the real servicer, which shares the defect); C05 got a prefix containing a refused update, after which recovered and live state disagree',
+    'C05-4': 'needs an interleaving inside one datastore method plus a crash: out of reach of the sequential crash injector; caught by C04 after the datastore lock itself became scheduler-visible (CreateStudy of another study rolls back the half-done DeleteStudy)',
+    'C08-4': 'needs an interleaving AND a remote client: missed by C08 (sequential) and C04 (in-process); C04 now runs its SQLite half with a stand-in ServicerContext (wire semantics) and keeps exploring past listed findings',
+    'C11-4': 'missed at first (unconfigured extra metric was always 7.0); C11 histories got NaN / inf extra metrics on tempting trials',
+    'C13-3': 'missed with 5 shards / 55 s, caught by the registered quick configuration (12 shards) on seeds 0 and 1 and by the thorough tier',
+    'C15-3': 'missed at first (BOOL values only as strings); C15 feeds Python-bool spellings',
+    'C16-3': 'missed at first (spaces were always fully built before the first query); C16 builds half of the conditional spaces in two stages and queries them while flat',
+    'C17-3': 'missed at first; C17 got the re-created-study scenario (same owner and id, changed declarations)',
+    'C19-3': 'missed at first; C19 got budgets below one batch and just short of the pool sweep',
+    'C19-4': 'missed at first; C19 got out-of-cube prior features',
     'C01-1': 'a concurrency change: not visible to the sequential C01 check, caught by C04 (write monitor + serialisability)',
 }
 
